@@ -153,31 +153,82 @@ func checkC07(p *Prog, r *Report) {
 			modsParam = newServer.Params[0]
 		}
 		okCall := false
-		allCalls(newServer, func(c ssa.CallInstruction) {
-			if c.Common().StaticCallee() != vm {
-				return
+		gNS := p.ModGraph()
+		errReturned := func(c ssa.CallInstruction) bool {
+			if c.Value() == nil {
+				return false
 			}
-			// argument is an element of the modules parameter
-			arg := c.Common().Args[0]
-			elemOfParam := false
-			if ld, ok := arg.(*ssa.UnOp); ok && ld.Op == token.MUL {
-				if ia, ok := ld.X.(*ssa.IndexAddr); ok && ia.X == modsParam {
-					elemOfParam = true
-				}
-			}
-			// error result returned on non-nil edge
-			returned := false
 			for _, ref := range *c.Value().Referrers() {
 				if ret, ok := ref.(*ssa.Return); ok {
 					if known, isNil := errIsNilAt(ret, c.Value()); known && !isNil {
-						returned = true
+						return true
 					}
 				}
 			}
-			if elemOfParam && returned {
-				okCall = true
-			}
-		})
+			return false
+		}
+		for _, u := range gNS.unitFuncs(newServer) {
+			u := u
+			allCalls(u, func(c ssa.CallInstruction) {
+				if c.Common().StaticCallee() != vm {
+					return
+				}
+				// argument is an element of the modules parameter (of NewServer, or of
+				// a helper that every caller hands NewServer's parameter)
+				arg := c.Common().Args[0]
+				elemOfParam := false
+				if ld, ok := arg.(*ssa.UnOp); ok && ld.Op == token.MUL {
+					if ia, ok := ld.X.(*ssa.IndexAddr); ok {
+						elemOfParam = modsParam != nil && unwrapLocal(ia.X) == ssa.Value(modsParam)
+						if hp, isP := unwrapLocal(ia.X).(*ssa.Parameter); isP && !elemOfParam && u != newServer {
+							// a helper's parameter: every call site passes NewServer's parameter
+							idx := -1
+							for i, pp := range u.Params {
+								if pp == hp {
+									idx = i
+								}
+							}
+							n := 0
+							elemOfParam = true
+							for _, e := range gNS.In[u] {
+								cs, ok := e.Site.(ssa.CallInstruction)
+								if isTestSupport(pkgPathOfFunc(e.From)) {
+									continue
+								}
+								n++
+								if !ok || e.Escape || cs.Common().StaticCallee() != u || idx < 0 || idx >= len(cs.Common().Args) || unwrapLocal(cs.Common().Args[idx]) != ssa.Value(modsParam) {
+									elemOfParam = false
+								}
+							}
+							if n == 0 {
+								elemOfParam = false
+							}
+						}
+					}
+				}
+				// error result returned on the non-nil edge, up to NewServer
+				returned := errReturned(c)
+				if returned && u != newServer {
+					nSites := 0
+					for _, e := range gNS.In[u] {
+						cs, ok := e.Site.(ssa.CallInstruction)
+						if !ok || e.Escape || cs.Common().StaticCallee() != u || isTestSupport(pkgPathOfFunc(e.From)) {
+							continue
+						}
+						nSites++
+						if e.From != newServer || !errReturned(cs) {
+							returned = false
+						}
+					}
+					if nSites == 0 {
+						returned = false
+					}
+				}
+				if elemOfParam && returned {
+					okCall = true
+				}
+			})
+		}
 		r.Cond(okCall, "C07/FS-NOT-WRITABLE", "NewServer validates each module", p.Pos(newServer.Pos()), "validateModule(modules[i]) must be called and its error returned")
 		for _, st := range storesToField(p, modulesF) {
 			r.Cond(st.Val == modsParam, "C07/FS-NOT-WRITABLE", "NewServer stores the validated slice", p.Pos(st.Pos()), "Server.modules must be the validated parameter")
